@@ -24,7 +24,7 @@
    reaching several nodes (F12a), witnesses below. *)
 From Coq Require Import List Ascii String ZArith NArith Bool.
 From YP Require Import Outcome PyStr PyVal Doc Generated PathParser PathPrinter Searches Eval SpecC01 EvalSem
-  EvalSemLib EvalSemPath EvalSemTop SpecC01Facts.
+  EvalSemLib EvalSemPath EvalSemTop SpecC01Facts C08Spec.
 Import ListNotations.
 Open Scope string_scope.
 
@@ -267,3 +267,20 @@ Theorem C01_optional_partial_existence_refuted :
   | _ => False
   end.
 Proof. vm_compute. split; reflexivity. Qed.
+
+
+(* notation: the same segments written in dot and in forward-slash notation are
+   read back (separator inferred) as the same escaped segments -- all that
+   [sem_path] reads of a prepared path besides the pre-parsed search attributes,
+   which are part of the segments.  From C08 (guards: C08's [wf], the property's
+   own exclusion of dot texts starting with "/").  The step from equal segments
+   to equal prepared paths (the UNESCAPED twin parse, read only by the collector
+   and creation branches) is not proved; C01_notation_example and the judge of
+   harness/c01.py (every case in both notations) stand in for it. *)
+Theorem C01_notation_segments_partial :
+  forall l : list sseg,
+    wf Dot l = true -> wf Slash l = true -> first_not_in ["/"%char] (render_ref Dot l) = true ->
+    parse Auto true (render_ref Dot l) = Ok (segs_of l) /\
+    parse Auto true (render_ref Slash l) = Ok (segs_of l).
+Proof. exact notation_same_segments. Qed.
+Print Assumptions C01_notation_segments_partial.
